@@ -138,6 +138,10 @@ class Prop:
             if x < 0.08:
                 ops.append({"k": "drop", "o": r.randrange(8)})
                 continue
+            if x < 0.15 and x >= 0.12:
+                # a replaced container mutated through an alias (fresh items only)
+                ops.append(freshen(G.gen_detached_op(r, 4)))
+                continue
             if x < 0.12:
                 # 'del node.trait': the link falls back to its default
                 ops.append({"k": "del_attr", "o": 0 if r.random() < 0.35 else r.randrange(12),
@@ -176,6 +180,7 @@ class Prop:
         world = G.World(env, 1, classes="EqNode" if cfg.get("eq_nodes") else "Node")
         world.lazy_enabled = False
         world.del_enabled = True
+        world.detached_enabled = True
         self._world = world
         routed = []
         oapi.push_exception_handler(lambda ev: routed.append("observe"), reraise_exceptions=False)
